@@ -86,7 +86,7 @@ def script_justified(repo, it):
         small = []
         for v in range(256):
             ps = tr.trace(isi.node.body, {'self': v})
-            if len(ps) == 1 and ps[0].end == 'return' and norm(ps[0].endnode.value) == 'True':
+            if len(ps) == 1 and ps[0].end == 'return' and repo.fold(ps[0].endnode.value, isi.module, cls=op, env={'self': v}) is True:
                 small.append(v)
         reached = dead_by_domain(repo, dec, 'self', small)
         sites_ok = True
